@@ -15,18 +15,20 @@
 (*   Fault(c)         call c raises OSError (handlers run); one per behaviour *)
 (*   FormatterRaises  an exception inside the with-block                      *)
 (*                                                                            *)
-(* A *configuration* says how the commit and the error handling are written:  *)
+(* A *configuration* says how the commit and the error handling are written.  *)
+(* "before" = cogent3 before the C19 repairs (/repo 3146aabd5, 846586424,     *)
+(* 459733c1d, 356ae1e38), "now" = the code as it is.                          *)
 (*   commit   "unlink_rename"  dest.unlink() ; src.rename(dest), the rename   *)
-(*                             sitting in a `finally` clause  (current code)  *)
-(*            "replace"        src.replace(dest)              (intended)      *)
+(*                             sitting in a `finally` clause       (before)   *)
+(*            "replace"        src.replace(dest)                   (now)      *)
 (*   cleanup  "exit_only"      temp dir removed only when the exception was   *)
-(*                             raised inside the with-block (current __exit__)*)
+(*                             raised inside the with-block        (before)   *)
 (*            "never"          the caller does not use a with-block           *)
-(*                             (current Table.write)                          *)
-(*            "always"         every failure removes the temp dir (intended)  *)
+(*                             (Table.write before)                           *)
+(*            "always"         every failure removes the temp dir  (now)      *)
 (*   wunlink  TRUE             the caller's own handler unlinks the           *)
 (*                             destination when formatting fails              *)
-(*                             (current format/alignment.save_to_filename)    *)
+(*                             (format/alignment.save_to_filename before)     *)
 (*                                                                            *)
 (* The property itself is OutcomeOK / Atomic below.  It talks about outcomes  *)
 (* only (how the call ended, what dest and the temp dir hold), never about    *)
@@ -51,17 +53,20 @@ PCs        == {"mkdtemp", "open", "block", "blockclosed", "close", "commit", "re
 Cfg(n, c, cl, w) == [name |-> n, commit |-> c, cleanup |-> cl, wunlink |-> w]
 
 (* the transcribed current code, one configuration per way atomic_write is used *)
-CfgSeqFmt == Cfg("seqfmt", "unlink_rename", "exit_only", TRUE)   \* save_to_filename
-CfgWith   == Cfg("with",   "unlink_rename", "exit_only", FALSE)  \* with atomic_write(..) as f
-CfgTable  == Cfg("table",  "unlink_rename", "never",     FALSE)  \* Table.write: no with-block
+CfgSeqFmt == Cfg("seqfmt", "replace", "always", FALSE)   \* format/alignment.save_to_filename (closes the file inside the block)
+CfgWith   == Cfg("with",   "replace", "always", FALSE)   \* with atomic_write(..) as f
+CfgTable  == Cfg("table",  "replace", "always", FALSE)   \* Table.write
 CurrentConfigs == {CfgSeqFmt, CfgWith, CfgTable}
-(* the intended protocol *)
-CfgIntended == Cfg("intended", "replace", "always", FALSE)
-IntendedConfigs == {CfgIntended}
+(* the code before the repairs: Atomic does NOT hold for these (MC_AtomicWrite_cx.cfg shows that the *)
+(* property rejects them; the prefix mutants in /verif/mutants put the real code back into them)      *)
+HistSeqFmt == Cfg("seqfmt_before", "unlink_rename", "exit_only", TRUE)
+HistWith   == Cfg("with_before",   "unlink_rename", "exit_only", FALSE)
+HistTable  == Cfg("table_before",  "unlink_rename", "never",     FALSE)
+HistoricConfigs == {HistSeqFmt, HistWith, HistTable}
 (* partial repairs, to show which change removes which counterexample *)
 CfgReplaceOnly == Cfg("replace_only", "replace", "exit_only", FALSE)
 CfgGuardOnly   == Cfg("guard_only", "unlink_rename", "always", FALSE)
-AllConfigs == CurrentConfigs \cup IntendedConfigs \cup {CfgReplaceOnly, CfgGuardOnly}
+AllConfigs == CurrentConfigs \cup HistoricConfigs \cup {CfgReplaceOnly, CfgGuardOnly}
 
 TypeOK == /\ cfg \in AllConfigs
           /\ pre \in {"absent", "Old"}
@@ -153,7 +158,7 @@ BlockHandler == IF cfg.cleanup = "never" THEN "done"
 EnterHandler == /\ pc' = BlockHandler
                 /\ how' = IF BlockHandler = "done" THEN "failed" ELSE how
                 /\ exc' = TRUE
-(* Table.write opens the staged file lazily at its first write, so formatting can fail before open *)
+(* without a with-block the staged file is opened lazily at the first write, so formatting can fail before open *)
 RaisePoints == {"block", "blockclosed"} \cup (IF cfg.cleanup = "never" THEN {"open"} ELSE {})
 FormatterRaisesT == /\ Running /\ pc \in RaisePoints
                     /\ EnterHandler /\ UNCHANGED <<cfg, pre, dest, tmp, fcall>>
